@@ -80,11 +80,15 @@ def gen_dyn(rnd):
 def gen_bits(rnd):
     fields = []
     k = 0
+    prev = None
     for _ in range(rnd.randint(1, 3)):
         if rnd.random() < 0.35:
             fields.append(fld(f"s{k}", sc(rnd.choice(["uint8", "uint16", "uint32"]))))
             k += 1
-        bt = rnd.choice(BIT_BASES)
+            prev = None
+        # a run on the storage type of the directly preceding run would continue that unit (and may straddle it)
+        bt = rnd.choice([b for b in BIT_BASES if (defs.ENUMS[b][1] if b in defs.ENUMS else b) != prev])
+        prev = defs.ENUMS[bt][1] if bt in defs.ENUMS else bt
         left = defs.WIDTH[bt]
         for _ in range(rnd.randint(1, 4)):
             if left == 0:
@@ -170,6 +174,38 @@ def observe(cs, op):
     raise ValueError(kind)
 
 
+def compact(c):
+    """canonical value -> short text for messages"""
+    if isinstance(c, (bytes, bytearray)):
+        return bytes(c).hex() or "-"
+    if isinstance(c, list) and c:
+        k = str(c[0])
+        if k in ("int", "enum", "ptr") and len(c) == 2:
+            return str(c[1])
+        if k == "rec":
+            return "{" + " ".join(compact(x) for x in c[1:]) + "}"
+        if k == "list":
+            return "[" + " ".join(compact(x) for x in c[1:]) + "]"
+        if k in ("bytes", "flt") and len(c) == 2:
+            return f"{k}:{compact(c[1]) if k == 'bytes' else c[1]}"
+    return str(c)
+
+
+def show(obs, n=230):
+    if obs[0] == "err":
+        return f"error {obs[1]}"
+    parts = [compact(obs[1])]
+    for x in obs[2:]:
+        if isinstance(x, tuple):
+            parts.append("dumps: " + (x[1].hex() if x[0] == "ok" else f"error {x[1]}"))
+        elif isinstance(x, (bytes, bytearray)):
+            parts.append("dumps: " + bytes(x).hex())
+        elif isinstance(x, int):
+            parts.append(f"end: {x}")
+    t = "; ".join(parts)
+    return t if len(t) <= n else t[:n] + "..."
+
+
 class Abort(Exception):
     """the history cannot go on (already reported)"""
 
@@ -210,8 +246,8 @@ class Histories:
         ok = True
         if repr(got) != repr(want):
             ok = False
-            self.viol(f"{what}: cs{ui} gives {str(got)[:160]} after this history; a fresh cstruct object with the same definitions and endianness "
-                      f"gives {str(want)[:160]}", dict(cd, op=repr(op)))
+            self.viol(f"{what}: cs{ui} gives <{show(got)}> after this history; a fresh cstruct object with the same definitions and endianness "
+                      f"gives <{show(want)}>", dict(cd, op=repr(op)))
         if tree is not None and op[0] in ("parse", "array-parse", "scalar-parse"):
             data = op[-1]
             r = self.ref_parse(u, tree, data)
@@ -223,8 +259,8 @@ class Histories:
                     same = got[0] == "ok" and impl.same_val(got[1], r[1])
                 if not same:
                     ok = False
-                    self.viol(f"{what}: cs{ui} gives {str(got)[:160]}; interpreting the definition in isolation with this object's own constants, "
-                              f"typedefs and endianness gives {str(r)[:160]}", dict(cd, op=repr(op)))
+                    self.viol(f"{what}: cs{ui} gives <{show(got)}>; interpreting the definition in isolation with this object's own constants, "
+                              f"typedefs and endianness gives <{show(r)}>", dict(cd, op=repr(op)))
         return got, ok
 
     # -- one history ------------------------------------------------------------------------------------------------
@@ -293,6 +329,12 @@ class Histories:
             res.feat("s6:type:" + name[0])
             return name
 
+        def valid_end(u, tn):
+            """the probe and where its valid parse ends under the object's CURRENT configuration (None: not a valid input now)"""
+            data = u["probe"][tn][0]
+            r = self.ref_parse(u, u["types"][tn], data)
+            return data, (r[2] if r and r[0] == "ok" else None)
+
         def probe_all(tag):
             for j, uu in enumerate(universes):
                 for tn, tree in uu["types"].items():
@@ -303,8 +345,10 @@ class Histories:
                 nm = load_next(ui)
                 if nm:
                     history.append(f"load {nm}@cs{ui}")
-        probe_all("initial")
         nviol = len(res.violations)
+        probe_all("initial")
+        if len(res.violations) > nviol:
+            return
         for step in range(rnd.randint(*steps_range)):
             op = rnd.choice(["load", "load", "parse", "parse", "badparse", "badparse", "badparse", "sweep", "endian", "endian", "endian",
                              "scalar-dump", "scalar-dump", "array-parse", "array-parse", "array-dump", "default", "scalar-parse"])
@@ -325,7 +369,7 @@ class Histories:
                 self.check(ui, u, ("parse", tn, data), u["types"][tn], cd(), "parse")
                 desc = ""
             elif op == "badparse" and tn:
-                data, end = u["probe"][tn]
+                data, end = valid_end(u, tn)
                 if end:
                     cut = rnd.choice([0, 0, 1, end - 1, rnd.randrange(end), rnd.randrange(end)])
                     desc = f"failing parse {tn}(probe[:{cut}])@cs{ui}"
@@ -334,7 +378,7 @@ class Histories:
                     desc = ""
             elif op == "sweep" and tn:
                 # every cut point of the probe: failing parse, then the valid one again
-                data, end = u["probe"][tn]
+                data, end = valid_end(u, tn)
                 if end:
                     cuts = list(range(end)) if end <= 40 else sorted(rnd.sample(range(end), 40))
                     history.append(f"sweep {tn}@cs{ui}: for every cut: failing parse of probe[:cut], then parse of the probe")
@@ -342,7 +386,7 @@ class Histories:
                         got = observe(u["cs"], ("parse", tn, data[:cut]))
                         res.feat("s6:obs:cut-parse")
                         if got != ("err", "EOFError"):
-                            self.viol(f"parse of {tn} truncated to {cut} of {end} bytes gives {str(got)[:160]} instead of EOFError",
+                            self.viol(f"parse of {tn} truncated to {cut} of {end} bytes gives <{show(got)}> instead of EOFError",
                                       dict(cd(), cut=cut, probe=data.hex()))
                         _, ok = self.check(ui, u, ("parse", tn, data), u["types"][tn], dict(cd(), cut=cut), f"parse after a failing parse (input cut at {cut})")
                         if not ok:
